@@ -30,7 +30,7 @@ func init() {
 
 var c18Proxies = []string{"", "http://proxy.example:3128", "https://proxy.example:3129", "socks5://proxy.example:1080", "http://proxy.example", "https://proxy.example"}
 var c18Hosts = []string{"backend.example", "backend.example:8443", "192.0.2.7", "[::1]", "[::1]:9000"}
-var c18ProxyReplies = []string{"", "200", "407 Proxy Authentication Required", "407", "502 Bad Gateway", "garbage", "eof", "200 OK", "403 "}
+var c18ProxyReplies = []string{"", "200", "407 Proxy Authentication Required", "407", "502 Bad Gateway", "garbage", "eof", "200 OK", "403 ", "204 No Content", "201 Created", "299 Whatever", "100 Continue"}
 
 func c18Scenarios(tier string) []*explore.Scenario {
 	var scs []*explore.Scenario
@@ -57,7 +57,7 @@ func c18Body(x *explore.Ctx, pi int, secure bool, hi int) {
 	}
 	o := backendOpts{}
 	if proxy != "" {
-		o.creds = []string{"", "user", "user:pa:ss"}[x.Pick(3, "proxy-credentials")]
+		o.creds = []string{"", "user", "user:pa:ss", "u@s er:p w/%2F"}[x.Pick(4, "proxy-credentials")]
 	}
 	certKind := 0
 	if secure {
@@ -127,6 +127,11 @@ func c18Body(x *explore.Ctx, pi int, secure bool, hi int) {
 	}
 	target := hostOnly + ":" + port
 	socksUserOnly := strings.HasPrefix(proxy, "socks5") && o.creds == "user"
+	if o.proxyResp == "100 Continue" {
+		// an interim response is not a final status: either outcome, only consistency
+		x.Check((conn == nil) == (err != nil), key("conn-xor-err"), "conn=%v err=%v", conn != nil, err)
+		return
+	}
 	proxyRefuses := o.proxyResp != "" && !strings.HasPrefix(o.proxyResp, "200")
 	wantOK := certKind == 0 && !proxyRefuses && !socksUserOnly
 	if socksUserOnly {
@@ -179,7 +184,7 @@ func c18Body(x *explore.Ctx, pi int, secure bool, hi int) {
 		if o.creds == "" {
 			x.Check(n.Log.Has("proxy: noauth"), key("socks-auth"), "SOCKS5 auth used without credentials: %v", log)
 		} else {
-			x.Check(n.Log.Has("proxy: auth user:pa:ss"), key("socks-auth"), "SOCKS5 username/password sub-negotiation missing or wrong: %v", filter(log, "proxy: auth"))
+			x.Check(n.Log.Has("proxy: auth "+o.creds), key("socks-auth"), "SOCKS5 username/password sub-negotiation missing or wrong: %v", filter(log, "proxy: auth"))
 		}
 	}
 	// 5. TLS towards the backend
